@@ -127,7 +127,30 @@ class ClassInfo:
 
     @property
     def is_namedtuple(self):
-        return any(b and b[0] == "ext" and b[1] in ("typing.NamedTuple",) for b in self.bases)
+        """a record class: typing.NamedTuple, or a @dataclass (its instances are modelled by the
+        values of their fields as well)"""
+        return any(b and b[0] == "ext" and b[1] in ("typing.NamedTuple",) for b in self.bases) or self.is_dataclass
+
+    @property
+    def is_dataclass(self):
+        for d in self.node.decorator_list:
+            node = d.func if isinstance(d, ast.Call) else d
+            txt = ast.unparse(node)
+            if txt in ("dataclass", "dataclasses.dataclass"):
+                return True
+        return False
+
+    @property
+    def is_enum(self):
+        return any(b and b[0] == "ext" and b[1] in ("enum.Enum", "enum.IntEnum", "enum.Flag", "enum.IntFlag", "enum.StrEnum") for b in self.bases)
+
+    def enum_members(self):
+        """{member name: value AST} of an Enum class"""
+        out = {}
+        for st in self.node.body:
+            if isinstance(st, ast.Assign) and len(st.targets) == 1 and isinstance(st.targets[0], ast.Name) and not st.targets[0].id.startswith("_"):
+                out[st.targets[0].id] = st.value
+        return out
 
     def nt_fields(self):
         """[(field name, default AST node or None)] of a typing.NamedTuple class, in order"""
